@@ -1,6 +1,7 @@
 /-
   Tie: generated `bds61.py` (ADS-B TC 28, aircraft status) = hand model (`Model/Adsb.lean`)
-  on every 28-digit hex frame.
+  on every 28-digit hex frame.  The decoders read the whole frame (`hex2bin(msg)`, `mb = msgbin[32:]`).
+  Helper lemmas are `private` (the same ones are repeated in `Tie/Bds62.lean`).
 -/
 import PyModeS.Tie.Basic
 import PyModeS.Generated.Src.bds61
@@ -13,12 +14,12 @@ namespace PyModeS.Tie
 open PyModeS PyModeS.Py PyModeS.CRC
 
 /-- `common.typecode(msg)` in terms of the bit string of the frame -/
-theorem typecode_hex (m : Msg) (h : IsHex m) (hl : 10 ≤ m.length) :
+private theorem typecode_hex (m : Msg) (h : IsHex m) (hl : 10 ≤ m.length) :
     Gen.py_common.typecode (.str m) = .val (Val.ofOptNat (tcB (hex2binM m))) := by
   rw [typecode_str m h hl, typecode_eq]
 
 /-- `typecode(msg) != k` -/
-theorem pyNe_ofOptNat (o : Option Nat) (k : Nat) :
+private theorem pyNe_ofOptNat (o : Option Nat) (k : Nat) :
     pyNe (Val.ofOptNat o) (.num (k : Rat)) = .val (.bool (decide (o ≠ some k))) := by
   rcases o with _ | n
   · simp [pyNe, Val.ofOptNat, Val.beq]
@@ -29,17 +30,17 @@ theorem pyNe_ofOptNat (o : Option Nat) (k : Nat) :
       simp [e, this]
 
 /-- a natural number compared with a numeric literal in `Rat` -/
-@[simp] theorem natCast_eq_lit (n k : Nat) [k.AtLeastTwo] :
+@[simp] private theorem natCast_eq_lit (n k : Nat) [k.AtLeastTwo] :
     ((n : Rat) = ofNat(k)) ↔ n = ofNat(k) := by
   rw [← Nat.cast_ofNat (R := Rat)]; exact Nat.cast_inj
 
-theorem frame_length (m : Msg) (hl : m.length = 28) : (hex2binM m).length = 112 := by
+private theorem frame_length (m : Msg) (hl : m.length = 28) : (hex2binM m).length = 112 := by
   rw [hex2binM_length, hl]
 
 set_option hygiene false in
 /-- common opening of an ADS-B decoder that reads the whole frame: the type code test becomes a test on
     `tcB bits`, and both sides read the 112-bit frame `bits` -/
-macro "adsb_open" m:ident h:ident hl:ident k:term : tactic => `(tactic|
+macro "adsb61_open" m:ident h:ident hl:ident k:term : tactic => `(tactic|
   (have hne : $m ≠ [] := by intro e; rw [e] at $hl:ident; simp at $hl:ident
    have hk := pyNe_ofOptNat (tcB (hex2binM $m)) $k
    simp only [Nat.cast_ofNat] at hk
@@ -50,13 +51,13 @@ macro "adsb_open" m:ident h:ident hl:ident k:term : tactic => `(tactic|
 
 set_option hygiene false in
 /-- name the ME field `mb = bits[32:]` (80 bits: ME and parity) and forget the frame -/
-macro "adsb_mb" : tactic => `(tactic|
+macro "adsb61_mb" : tactic => `(tactic|
   (have hd : (List.drop 32 bits).length = 80 := by rw [List.length_drop, hb]
    generalize tcB bits = tc
    generalize List.drop 32 bits = d at hd ⊢))
 
 set_option hygiene false in
-macro "adsb_close" : tactic => `(tactic|
+macro "adsb61_close" : tactic => `(tactic|
   (by_cases htc : tc = some 28 <;>
     simp [htc, idxR_of_lt, hd, bin2intR_slice_of_lt, Val.ofNat, Val.ofOptRat] <;>
     try (split_ifs <;> simp_all) <;> try (split_ifs <;> simp_all)))
@@ -64,20 +65,20 @@ macro "adsb_close" : tactic => `(tactic|
 theorem emergency_state_tie (m : Msg) (h : IsHex m) (hl : m.length = 28) :
     Gen.bds61.emergency_state (.str m) = (PyModeS.emergencyState (hex2binM m) >>= fun n => .val (Val.ofNat n)) := by
   unfold Gen.bds61.emergency_state PyModeS.emergencyState
-  adsb_open m h hl 28
-  adsb_mb
-  adsb_close
+  adsb61_open m h hl 28
+  adsb61_mb
+  adsb61_close
 
 theorem is_emergency_tie (m : Msg) (h : IsHex m) (hl : m.length = 28) :
     Gen.bds61.is_emergency (.str m) = (PyModeS.isEmergency (hex2binM m) >>= fun b => .val (.bool b)) := by
   unfold Gen.bds61.is_emergency PyModeS.isEmergency
-  adsb_open m h hl 28
-  adsb_mb
-  adsb_close
+  adsb61_open m h hl 28
+  adsb61_mb
+  adsb61_close
 
 /-! ### `common.squawk` -/
 
-theorem charsSubset_ofBits (b : Bits) :
+private theorem charsSubset_ofBits (b : Bits) :
     pyCharsSubset (Val.ofBits b) (.str ['0', '1']) = .val (.bool true) := by
   simp only [pyCharsSubset, Val.ofBits, List.all_map]
   congr 2
@@ -85,24 +86,24 @@ theorem charsSubset_ofBits (b : Bits) :
   intro x _
   cases x <;> rfl
 
-theorem len13 (b : Bits) (hlen : b.length = 13) :
+private theorem len13 (b : Bits) (hlen : b.length = 13) :
     ∃ C1 A1 C2 A2 C4 A4 X B1 D1 B2 D2 B4 D4, b = [C1, A1, C2, A2, C4, A4, X, B1, D1, B2, D2, B4, D4] := by
   match b, hlen with
   | [C1, A1, C2, A2, C4, A4, X, B1, D1, B2, D2, B4, D4], _ => exact ⟨_, _, _, _, _, _, _, _, _, _, _, _, _, rfl⟩
 
-theorem pyAdd_str (x y : List Char) : pyAdd (.str x) (.str y) = .val (.str (x ++ y)) := rfl
+private theorem pyAdd_str (x y : List Char) : pyAdd (.str x) (.str y) = .val (.str (x ++ y)) := rfl
 
-theorem pyStr_ofNat (n : Nat) : pyStr (Val.ofNat n) = .val (.str (Nat.repr n).toList) := by
+private theorem pyStr_ofNat (n : Nat) : pyStr (Val.ofNat n) = .val (.str (Nat.repr n).toList) := by
   have := int?_ofNat n
   unfold Val.ofNat at this
   simp only [pyStr, Val.ofNat, this]
   rfl
 
 /-- the text Python builds from the four octal digits: `str(byte1) + str(byte2) + str(byte3) + str(byte4)` -/
-def squawkStr (l : List Nat) : List Char := l.flatMap fun n => (Nat.repr n).toList
+def squawkText (l : List Nat) : List Char := l.flatMap fun n => (Nat.repr n).toList
 
 theorem squawk_bits_tie (b : Bits) :
-    Gen.py_common.squawk (Val.ofBits b) = (PyModeS.squawk b >>= fun l => .val (.str (squawkStr l))) := by
+    Gen.py_common.squawk (Val.ofBits b) = (PyModeS.squawk b >>= fun l => .val (.str (squawkText l))) := by
   unfold Gen.py_common.squawk
   simp only [ofBits_length, Res.bind_val, charsSubset_ofBits]
   by_cases hlen : b.length = 13
@@ -111,18 +112,34 @@ theorem squawk_bits_tie (b : Bits) :
     rw [hlen]
     simp only [hg, Res.bind_val, Res.pure_eq, pyTruth_bool, pyNot_bool, Bool.not_true, Bool.false_eq_true, if_false]
     obtain ⟨C1, A1, C2, A2, C4, A4, X, B1, D1, B2, D2, B4, D4, rfl⟩ := len13 b hlen
+    have ix : ∀ (l : Bits) (k : Nat) (x : Bool), l[k]? = some x → pyIdxN (Val.ofBits l) k = .val (.str [x.toDigit]) := by
+      intro l k x hx
+      simp [pyIdxN_ofBits, idxR, hx]
+    rw [ix _ 0 C1 rfl, Res.bind_val, ix _ 1 A1 rfl, Res.bind_val, ix _ 2 C2 rfl, Res.bind_val, ix _ 3 A2 rfl, Res.bind_val,
+      ix _ 4 C4 rfl, Res.bind_val, ix _ 5 A4 rfl, Res.bind_val, ix _ 7 B1 rfl, Res.bind_val, ix _ 8 D1 rfl, Res.bind_val,
+      ix _ 9 B2 rfl, Res.bind_val, ix _ 10 D2 rfl, Res.bind_val, ix _ 11 B4 rfl, Res.bind_val, ix _ 12 D4 rfl, Res.bind_val]
     have e3 : ∀ x y z : Bool, (Val.str [x.toDigit, y.toDigit, z.toDigit]) = Val.ofBits [x, y, z] := fun _ _ _ => rfl
     have e4 : ∀ x y z : Bool, bin2intR [x, y, z] = .val (PyModeS.bin2int [x, y, z]) := fun _ _ _ => rfl
-    simp only [pyIdxN_ofBits, idxR, List.getElem?_cons_succ, List.getElem?_cons_zero, Res.bind_val, pyAdd_str,
-      List.cons_append, List.nil_append, e3, pyInt2_ofBits, e4, pyStr_ofNat, PyModeS.squawk]
-    trace_state
-    sorry
+    simp only [pyAdd_str, List.cons_append, List.nil_append, e3, pyInt2_ofBits, e4, Res.bind_val, pyStr_ofNat, PyModeS.squawk]
+    simp [squawkText]
   · have e : PyModeS.squawk b = .rte := by
       unfold PyModeS.squawk
       split
       · simp at hlen
       · rfl
     have hn : ¬ ((b.length : Rat) = 13) := by exact_mod_cast hlen
-    simp [e, pyNe, Val.ofNat, Val.beq, hn]
+    have hg : pyNe (Val.ofNat b.length) (Val.num 13) = .val (.bool true) := by
+      simp [pyNe, Val.beq, Val.ofNat, hn]
+    simp only [hg, e, Res.bind_val, Res.bind_rte, Res.pure_eq, pyTruth_bool, if_true]
+
+/-- `emergency_squawk` returns the squawk as text; the hand model returns the four octal digits, rendered here as
+    Python renders them (`str` of each digit, concatenated: `squawkText`) -/
+theorem emergency_squawk_tie (m : Msg) (h : IsHex m) (hl : m.length = 28) :
+    Gen.bds61.emergency_squawk (.str m) =
+      (PyModeS.emergencySquawk (hex2binM m) >>= fun l => .val (.str (squawkText l))) := by
+  unfold Gen.bds61.emergency_squawk PyModeS.emergencySquawk
+  adsb61_open m h hl 28
+  simp only [pySliceNN_ofBits, Res.bind_val, squawk_bits_tie]
+  by_cases htc : tcB bits = some 28 <;> simp [htc]
 
 end PyModeS.Tie
